@@ -223,6 +223,34 @@ def run(ctx):
             for name, script in (("ws_sig_fin", [ws, sg, fin, cd]), ("ws_fin_sig", [ws, fin, sg, cd]), ("sig_ws_fin", [sg, ws, fin, cd]),
                                  ("ws_sig_eof_fin", [ws, sg, dict(op="eof"), fin]), ("ws_sig_sig", [ws, sg, dict(sg), fin, cd])):
                 scen.append(dict(id="pair/%d-%s-%s" % (wi, sv or "valid", name), mode="server", cap=0, script=script))
+    # bursts: more runs fail at the same moment than the error queue (3) and its handler can hold, while the client is
+    # slow to read: every accepted work-start still gets exactly one terminal message once the client reads on
+    burst = []
+    for n in ((5, 8) if not thorough else (4, 5, 6, 8, 12)):
+        for be, va in (("err", ""), ("panic", ""), ("ok", "unknown_step"), ("ok", "bad_input"), ("baddata", "")):
+            ids = ["r%d" % k for k in range(1, n + 1)]
+            script = [dict(op="hold_reader")] + [dict(op="send", kind="ws", run=r, beh=be, variant=va) for r in ids] + \
+                     [dict(op="finish", run=r) for r in ids] + [dict(op="release_reader"), dict(op="send", kind="cd", run="", variant="", beh="ok")]
+            burst.append(dict(id="burst/%d/%s%s" % (n, be, va), mode="server", cap=0, script=script))
+            # the same with the reader released only after the input has ended
+            burst.append(dict(id="burstlate/%d/%s%s" % (n, be, va), mode="server", cap=0,
+                              script=script[:-2] + [dict(op="eof"), dict(op="release_reader")]))
+    bsessions = []
+    for sc, rr in zip(burst, A.run_driver(ctx, burst, label="c07burst")):
+        ctx.count(json.dumps(sc["script"], sort_keys=True))
+        out = judge(ctx, sc, rr)
+        if out is not None:
+            bsessions.append((sc["id"], out["events"]))
+    ok, info = A.validate(ctx, bsessions, ["r%d" % k for k in range(1, 13)], 0, [], [], label="c07bursttrace") if bsessions else (True, {})
+    if ok:
+        ctx.traces += len(bsessions)
+    else:
+        evs = next((e for sid, e in bsessions if sid == info.get("session")), [])
+        ctx.violation(dict(kind="trace_" + info["kind"], event=info["line"]["ev"], violated=str(info.get("violated")), family="burst"),
+                      dict(session=info.get("session"), line=info["line"], prefix=info.get("prefix"),
+                           scenario=next((s for s in burst if s["id"] == info.get("session")), None),
+                           events=evs[: info["event_index"] + 3], tlc=info.get("tlc_tail", "")))
+    ctx.extra["burst_sessions"] = len(burst)
     base = [
         [dict(op="send", kind="ws", run="r1", beh="ok", variant=""), dict(op="send", kind="sig", run="r1", variant="", beh="ok"),
          dict(op="finish", run="r1"), dict(op="send", kind="cd", run="", variant="", beh="ok")],
